@@ -103,8 +103,63 @@ def do_run(cases):
     return rows
 
 
+NEUTRAL = os.path.join(VERIF, "seeded_neutral")
+
+
+def do_import_neutral(seed_dir, tag):
+    for fn in sorted(os.listdir(seed_dir)):
+        if not (fn.startswith("n") and fn.endswith(".diff")):
+            continue
+        d, wt = scratch_repo()
+        try:
+            rc, out = sh(f"git apply {os.path.join(seed_dir, fn)}", cwd=wt)
+            if rc:
+                print("does not apply:", fn, out[-200:]); continue
+            rc, out = sh(f"{PY} -m pytest -q -p no:cacheprovider --timeout=900 tests", cwd=wt)
+            tail = out.strip().splitlines()[-1]
+            if rc or "266 passed" not in tail:
+                print("suite not green:", fn, tail); continue
+            dest = os.path.join(NEUTRAL, f"{tag}-{fn[:-5]}")
+            os.makedirs(dest, exist_ok=True)
+            shutil.copy(os.path.join(seed_dir, fn), os.path.join(dest, "patch.diff"))
+            json.dump({"kind": "behaviour-preserving refactoring by an independent sub-agent", "confirmed": f"applies to /repo HEAD; suite with patch: {tail}"}, open(os.path.join(dest, "meta.json"), "w"), indent=1)
+            print("kept", dest)
+        finally:
+            drop(d)
+
+
+def do_run_neutral(cases):
+    man = json.load(open(os.path.join(VERIF, "MANIFEST.json")))
+    claimed = [c["property_id"] for c in man["checks"]]
+    for case in cases or sorted(os.listdir(NEUTRAL)):
+        cdir = os.path.join(NEUTRAL, case)
+        d, wt = scratch_repo()
+        try:
+            rc, out = sh(f"git apply {cdir}/patch.diff", cwd=wt)
+            if rc:
+                print(f"{case:12s} PATCH DOES NOT APPLY"); continue
+            procs = {pid: subprocess.Popen([PY, "-m", "vstatic", "check", pid], cwd=VERIF, env={**os.environ, "VSTATIC_REPO": wt, "VSTATIC_EVIDENCE_DIR": os.path.join(d, "ev")},
+                                           stdout=subprocess.PIPE, stderr=subprocess.STDOUT, text=True) for pid in claimed}
+            bad = []
+            for pid, p in procs.items():
+                out, _ = p.communicate()
+                if p.returncode != 0:
+                    lines = [l.strip()[:240] for l in out.splitlines() if l.startswith("  rule=") or "ANALYSIS-ERROR" in l][:3]
+                    bad.append((pid, p.returncode, lines))
+            print(f"{case:12s} {'silent' if not bad else 'ALARM: ' + ','.join(f'{p}(rc={rc})' for p, rc, _ in bad)}")
+            for pid, rc, lines in bad:
+                for l in lines:
+                    print(f"    {pid}: {l}")
+        finally:
+            drop(d)
+
+
 if __name__ == "__main__":
-    if sys.argv[1] == "import":
+    if sys.argv[1] == "import-neutral":
+        do_import_neutral(sys.argv[2], sys.argv[3])
+    elif sys.argv[1] == "run-neutral":
+        do_run_neutral(sys.argv[2:])
+    elif sys.argv[1] == "import":
         do_import(*sys.argv[2:6])
     else:
         do_run(sys.argv[2:])
